@@ -59,8 +59,13 @@ Ltac inv_step H :=
   inversion H; subst; clear H.
 
 (* ---------- A. the counters and the pending-reply table are functions of the program counters ---------- *)
+(* counted: between atomic.AddInt32(&queueLen, 1) and the deferred AddInt32(-1); inside: between resp.Store and the deferred
+   resp.Delete (the two pairs are separate instructions: the windows differ at both ends) *)
+Definition counted (k : call) : bool :=
+  match k_pc k with Counted | Reg | Dialing | Enq | Waiting | Done => true | _ => false end.
 Definition inside (k : call) : bool :=
-  match k_pc k with Reg | Dialing | Enq | Waiting | Done => true | _ => false end.
+  match k_pc k with Reg | Dialing | Enq | Waiting | Done | Uncounted => true | _ => false end.
+Definition in_doInvoke (k : call) : bool := counted k || inside k.
 Definition invoked (k : call) : bool :=
   match k_pc k with Init | Returned => false | _ => true end.
 Fixpoint cnt (f : call -> bool) (l : list call) : Z :=
@@ -103,7 +108,7 @@ Proof.
 Qed.
 
 Record InvA (s : state) : Prop := {
-  a_q : queueLen s = cnt inside (calls s);
+  a_q : queueLen s = cnt counted (calls s);
   a_n : invokeNum s = cnt invoked (calls s);
   a_r : forall i, In i (resp s) <-> inside_at (calls s) i;
   a_nd : NoDup (resp s) }.
@@ -117,7 +122,7 @@ Qed.
 Lemma remove_nat_nodup : forall i l, NoDup l -> NoDup (remove_nat i l).
 Proof. intros. apply NoDup_filter. assumption. Qed.
 
-Ltac pcs := unfold inside, invoked, set_pc, set_wait, set_lock, set_out, set_full, set_enq, set_ret in *; cbn [k_pc] in *.
+Ltac pcs := unfold counted, inside, in_doInvoke, invoked, set_pc, set_wait, set_lock, set_out, set_full, set_enq, set_ret in *; cbn [k_pc] in *.
 
 Lemma InvA_init : InvA init.
 Proof.
@@ -127,11 +132,11 @@ Qed.
 
 (* a step that replaces call i by x where both are inside or both are not, and leaves the counters and the table alone *)
 Lemma InvA_same : forall s s' i k x,
-  InvA s -> nth_error (calls s) i = Some k -> inside x = inside k -> invoked x = invoked k ->
+  InvA s -> nth_error (calls s) i = Some k -> counted x = counted k -> inside x = inside k -> invoked x = invoked k ->
   calls s' = upd (calls s) i x -> queueLen s' = queueLen s -> invokeNum s' = invokeNum s -> resp s' = resp s -> InvA s'.
 Proof.
-  intros s s' i k x [Hq Hn Hr Hd] Hk Hi Hv Hc Hq' Hn' Hr'. split.
-  - rewrite Hq', Hc, (cnt_upd _ _ _ _ x Hk), Hi, Hq. lia.
+  intros s s' i k x [Hq Hn Hr Hd] Hk Hcn Hi Hv Hc Hq' Hn' Hr'. split.
+  - rewrite Hq', Hc, (cnt_upd _ _ _ _ x Hk), Hcn, Hq. lia.
   - rewrite Hn', Hc, (cnt_upd _ _ _ _ x Hk), Hv, Hn. lia.
   - intros j. rewrite Hr', Hc, (inside_at_upd_same _ _ _ _ Hk Hi). apply Hr.
   - rewrite Hr'. exact Hd.
@@ -206,6 +211,16 @@ Proof.
   - (* LIdleClose *) eapply InvA_frame; eauto.
   - (* LCancel *) eapply (InvA_same s _ i c0 (set_out c0 Cancelled (k_e c0))); eauto; pcs; rewrite Heqp; reflexivity.
   - (* LFilterErr *) eapply (InvA_same s _ i c0 (set_full c0)); eauto; pcs; rewrite Heqp; reflexivity.
+  - (* LCount *) destruct HA as [Hq Hn Hr Hd]. split; cbn [calls queueLen invokeNum resp].
+    + rewrite (cnt_upd _ _ _ _ _ Heqo). pcs. rewrite Heqp. lia.
+    + rewrite (cnt_upd _ _ _ _ _ Heqo). pcs. rewrite Heqp. lia.
+    + intros j. rewrite (inside_at_upd_same _ _ _ _ Heqo); [apply Hr|]. pcs. rewrite Heqp. reflexivity.
+    + exact Hd.
+  - (* LUncount *) destruct HA as [Hq Hn Hr Hd]. split; cbn [calls queueLen invokeNum resp].
+    + rewrite (cnt_upd _ _ _ _ _ Heqo). pcs. rewrite Heqp. lia.
+    + rewrite (cnt_upd _ _ _ _ _ Heqo). pcs. rewrite Heqp. lia.
+    + intros j. rewrite (inside_at_upd_same _ _ _ _ Heqo); [apply Hr|]. pcs. rewrite Heqp. reflexivity.
+    + exact Hd.
 Qed.
 
 Theorem InvA_reach : forall c s, reach c s -> InvA s.
@@ -238,11 +253,11 @@ Definition B (c : cfg) (k : call) : N := N.max (k_dl k) (k_lockt k + dl_d c k + 
 Definition time_ok (c : cfg) (n : N) (k : call) : Prop :=
   k_start k <= n /\ k_start k <= k_dl k /\ k_start k <= k_lockt k /\
   match k_pc k with
-  | Init | Pre => n = k_start k /\ k_e k = false
+  | Init | Pre | Counted => n = k_start k /\ k_e k = false
   | Reg => k_e k = false
   | Dialing => k_d k = true /\ k_e k = false /\ k_t0 k = k_lockt k /\ k_lockt k <= n /\ n <= k_lockt k + dialT c
   | Enq => k_e k = false /\ k_lockt k <= k_t0 k /\ k_t0 k <= k_lockt k + dl_d c k /\ k_t0 k <= n /\ n <= k_t0 k + writeT c
-  | Waiting | Done | Cleaned => n <= B c k
+  | Waiting | Done | Uncounted | Cleaned => n <= B c k
   | Returned => k_ret k <= B c k /\ k_ret k <= n
   end.
 
@@ -392,9 +407,9 @@ Proof. induction l as [|h t IH]; intros [|i] x; cbn; auto. Qed.
 Definition notq (s : state) (i : nat) : Prop := ~ In i (sendq s) /\ ~ In i (wire s).
 Definition out_ok (s : state) (i : nat) (k : call) : Prop :=
   match k_pc k with
-  | Init | Pre | Reg | Dialing | Enq => k_out k = None /\ notq s i
+  | Init | Pre | Counted | Reg | Dialing | Enq => k_out k = None /\ notq s i
   | Waiting => k_out k = None
-  | Done | Cleaned => exists o, k_out k = Some o
+  | Done | Uncounted | Cleaned => exists o, k_out k = Some o
   | Returned => (exists o, k_out k = Some o) /\ (k_out k = Some Timeout -> k_dl k <= k_ret k)
   end
   /\ (forall p, k_out k = Some (Reply p) -> In (id_of i, p) (sent s))
@@ -478,6 +493,8 @@ Proof.
     osolve.
   - (* LCancel *) osolve.
   - (* LFilterErr *) osolve.
+  - (* LCount *) osolve.
+  - (* LUncount *) osolve.
 Qed.
 
 Theorem InvO_reach : forall c s, reach c s -> InvO s.
@@ -490,7 +507,7 @@ Lemma nil_of_no_in : forall (l : list nat), (forall j, ~ In j l) -> l = [].
 Proof. intros [|h t] H; [reflexivity|]. exfalso. apply (H h). left; reflexivity. Qed.
 
 Theorem restored_counts : forall c s, reach c s ->
-  queueLen s = cnt inside (calls s) /\ invokeNum s = cnt invoked (calls s) /\
+  queueLen s = cnt counted (calls s) /\ invokeNum s = cnt invoked (calls s) /\
   (forall i, In i (resp s) <-> inside_at (calls s) i) /\ NoDup (resp s).
 Proof. intros c s H. destruct (InvA_reach c s H). auto. Qed.
 
@@ -499,7 +516,7 @@ Theorem restored_quiescent : forall c s, reach c s ->
   queueLen s = 0%Z /\ invokeNum s = 0%Z /\ resp s = [].
 Proof.
   intros c s H Hq. destruct (InvA_reach c s H) as [Hql Hin Hr Hd]. repeat split.
-  - rewrite Hql. apply cnt_all_false. intros i k Hk. unfold inside. destruct (Hq _ _ Hk) as [-> | ->]; reflexivity.
+  - rewrite Hql. apply cnt_all_false. intros i k Hk. unfold counted. destruct (Hq _ _ Hk) as [-> | ->]; reflexivity.
   - rewrite Hin. apply cnt_all_false. intros i k Hk. unfold invoked. destruct (Hq _ _ Hk) as [-> | ->]; reflexivity.
   - apply nil_of_no_in. intros j Hj. apply Hr in Hj. destruct Hj as [k [Hk Hi]].
     unfold inside in Hi. destruct (Hq _ _ Hk) as [Hp|Hp]; rewrite Hp in Hi; discriminate.
@@ -507,12 +524,15 @@ Qed.
 
 (* no call inside doInvoke: queueLen and the pending-reply table are empty, whatever the other calls do outside *)
 Theorem restored_no_call_inside : forall c s, reach c s ->
-  (forall i k, nth_error (calls s) i = Some k -> inside k = false) -> queueLen s = 0%Z /\ resp s = [].
+  (forall i k, nth_error (calls s) i = Some k -> in_doInvoke k = false) -> queueLen s = 0%Z /\ resp s = [].
 Proof.
-  intros c s H Hq. destruct (InvA_reach c s H) as [Hql Hin Hr Hd]. split.
-  - rewrite Hql. apply cnt_all_false. exact Hq.
+  intros c s H Hq0. destruct (InvA_reach c s H) as [Hql Hin Hr Hd].
+  assert (Hq : forall i k, nth_error (calls s) i = Some k -> counted k = false /\ inside k = false).
+  { intros i k Hk. specialize (Hq0 i k Hk). unfold in_doInvoke in Hq0. apply orb_false_elim in Hq0. exact Hq0. }
+  split.
+  - rewrite Hql. apply cnt_all_false. intros i k Hk. apply (Hq i k Hk).
   - apply nil_of_no_in. intros j Hj. apply Hr in Hj. destruct Hj as [k [Hk Hi]].
-    rewrite (Hq _ _ Hk) in Hi. discriminate.
+    destruct (Hq _ _ Hk) as [_ E]. rewrite E in Hi. discriminate.
 Qed.
 
 Lemma cnt_ext : forall f l1 l2, length l1 = length l2 ->
@@ -532,12 +552,16 @@ Theorem restored_per_call : forall c s1 s2 i k1 k2, reach c s1 -> reach c s2 ->
 Proof.
   intros c s1 s2 i k1 k2 H1 H2 Hl Hsame Hk1 Hp1 Hk2 Hp2.
   destruct (InvA_reach c s1 H1) as [Hq1 Hn1 Hr1 _]. destruct (InvA_reach c s2 H2) as [Hq2 Hn2 Hr2 _].
+  assert (Hcn : forall j a b, nth_error (calls s1) j = Some a -> nth_error (calls s2) j = Some b -> counted a = counted b).
+  { intros j a b Ha Hb. destruct (Nat.eq_dec j i) as [->|Hne].
+    - rewrite Hk1 in Ha. rewrite Hk2 in Hb. inversion Ha; inversion Hb; subst. unfold counted. rewrite Hp1, Hp2. auto.
+    - unfold counted. rewrite (Hsame _ _ _ Hne Ha Hb). auto. }
   assert (Hpc : forall j a b, nth_error (calls s1) j = Some a -> nth_error (calls s2) j = Some b -> inside a = inside b /\ invoked a = invoked b).
   { intros j a b Ha Hb. destruct (Nat.eq_dec j i) as [->|Hne].
     - rewrite Hk1 in Ha. rewrite Hk2 in Hb. inversion Ha; inversion Hb; subst. unfold inside, invoked. rewrite Hp1, Hp2. auto.
     - unfold inside, invoked. rewrite (Hsame _ _ _ Hne Ha Hb). auto. }
   repeat split.
-  - rewrite Hq1, Hq2. apply cnt_ext; [exact Hl|]. intros j a b Ha Hb. apply (Hpc j a b Ha Hb).
+  - rewrite Hq1, Hq2. apply cnt_ext; [exact Hl|]. intros j a b Ha Hb. apply (Hcn j a b Ha Hb).
   - rewrite Hn1, Hn2. apply cnt_ext; [exact Hl|]. intros j a b Ha Hb. apply (Hpc j a b Ha Hb).
   - rewrite Hr1, Hr2. intros [a [Ha Hi]].
     assert (Hlt : (j < length (calls s2))%nat) by (rewrite <- Hl; apply nth_error_Some; congruence).
@@ -620,13 +644,13 @@ Fixpoint ticks (n : nat) : list label := match n with O => [] | S m => Tick :: t
 (* (a) two callers, connection establishment stalls: the second caller waits for connLock while the first one dials *)
 Definition stalled_cfg : cfg := mkcfg 40 60 10 100 100000 60000.
 Definition stalled_trace : list label :=
-  [Start 20 false; Start 20 false; LPre 0; LReg 0; LLock 0; LPre 1; LReg 1] ++ ticks 40 ++
-  [LDialTimeout 0; LClean 0; LPost 0; LLock 1] ++ ticks 40 ++ [LDialTimeout 1; LClean 1; LPost 1].
+  [Start 20 false; Start 20 false; LPre 0; LCount 0; LReg 0; LLock 0; LPre 1; LCount 1; LReg 1] ++ ticks 40 ++
+  [LDialTimeout 0; LUncount 0; LClean 0; LPost 0; LLock 1] ++ ticks 40 ++ [LDialTimeout 1; LUncount 1; LClean 1; LPost 1].
 (* (b) the peer accepts and never reads, send queue of length 1: the second caller waits WriteTimeout for room *)
 Definition fullq_cfg : cfg := mkcfg 10 60 10 1 100000 60000.
 Definition fullq_trace : list label :=
-  [Start 10 false; Start 10 false; LPre 0; LReg 0; LLock 0; LDialOk 0; LEnq 0; LPre 1; LReg 1; LLock 1] ++ ticks 10 ++
-  [LCtxFire 0; LClean 0; LPost 0] ++ ticks 50 ++ [LEnqTimeout 1; LClean 1; LPost 1].
+  [Start 10 false; Start 10 false; LPre 0; LCount 0; LReg 0; LLock 0; LDialOk 0; LEnq 0; LPre 1; LCount 1; LReg 1; LLock 1] ++ ticks 10 ++
+  [LCtxFire 0; LUncount 0; LClean 0; LPost 0] ++ ticks 50 ++ [LEnqTimeout 1; LUncount 1; LClean 1; LPost 1].
 
 Definition late_call (c : cfg) (ls : list label) (i : nat) : bool :=
   match run c init ls with
@@ -724,7 +748,7 @@ Proof. intros T. unfold lo. apply N.le_sub_l. Qed.
 
 (* ---- no time lock: from every state finitely many local steps lead to a state in which the clock can tick ---- *)
 Definition rank (k : call) : nat :=
-  match k_pc k with Init => 8 | Pre => 7 | Reg => 6 | Dialing => 5 | Enq => 4 | Waiting => 3 | Done => 2 | Cleaned => 1 | Returned => 0 end.
+  match k_pc k with Init => 10 | Pre => 9 | Counted => 8 | Reg => 7 | Dialing => 6 | Enq => 5 | Waiting => 4 | Done => 3 | Uncounted => 2 | Cleaned => 1 | Returned => 0 end.
 Definition rrank (x : rcv) : nat := match r_pc x with RNew => 2 | RFound _ => 1 | RDone => 0 end.
 Fixpoint total {A} (f : A -> nat) (l : list A) : nat := match l with [] => 0 | x :: t => f x + total f t end.
 Definition mu (s : state) : nat := total rank (calls s) + total rrank (rcvs s).
@@ -756,8 +780,10 @@ Proof.
     + destruct (qmax c <? queueLen s)%Z eqn:Hq.
       * exists (LQueueFull i). eexists. cbn [step]. rewrite Hk, Hp, Hq. split; [discriminate|]. split; [reflexivity|]. unfold mu, with_calls; cbn [calls rcvs now].
         specialize (Hm (set_full k)). cbn in Hm. split; [lia|reflexivity].
-      * exists (LReg i). eexists. cbn [step]. rewrite Hk, Hp, Hq. split; [discriminate|]. split; [reflexivity|]. unfold mu; cbn [calls rcvs now].
-        specialize (Hm (set_pc k Reg)). cbn in Hm. split; [lia|reflexivity].
+      * exists (LCount i). eexists. cbn [step]. rewrite Hk, Hp, Hq. split; [discriminate|]. split; [reflexivity|]. unfold mu; cbn [calls rcvs now].
+        specialize (Hm (set_pc k Counted)). cbn in Hm. split; [lia|reflexivity].
+    + exists (LReg i). eexists. cbn [step]. rewrite Hk, Hp. split; [discriminate|]. split; [reflexivity|]. unfold mu; cbn [calls rcvs now].
+      specialize (Hm (set_pc k Reg)). cbn in Hm. split; [lia|reflexivity].
     + destruct (lock s) eqn:Hl; [discriminate|]. exists (LLock i). destruct (conn_open s) eqn:Ho.
       * eexists. cbn [step]. rewrite Hk, Hl, Hp, Ho. split; [discriminate|]. split; [reflexivity|]. unfold mu, with_calls; cbn [calls rcvs now].
         specialize (Hm (set_lock k Enq (now s) false)). cbn in Hm. split; [lia|reflexivity].
@@ -775,6 +801,8 @@ Proof.
         specialize (Hm (set_out k Error true)). cbn in Hm. split; [lia|reflexivity].
     + exists (LCtxFire i). eexists. cbn [step]. rewrite Hk, Hp, Hc. split; [discriminate|]. split; [reflexivity|]. unfold mu, with_calls; cbn [calls rcvs now].
       specialize (Hm (set_out k Timeout (k_e k))). cbn in Hm. split; [lia|reflexivity].
+    + exists (LUncount i). eexists. cbn [step]. rewrite Hk, Hp. split; [discriminate|]. split; [reflexivity|]. unfold mu; cbn [calls rcvs now].
+      specialize (Hm (set_pc k Uncounted)). cbn in Hm. split; [lia|reflexivity].
     + exists (LClean i). eexists. cbn [step]. rewrite Hk, Hp. split; [discriminate|]. split; [reflexivity|]. unfold mu; cbn [calls rcvs now].
       specialize (Hm (set_pc k Cleaned)). cbn in Hm. split; [lia|reflexivity].
     + exists (LPost i). eexists. cbn [step]. rewrite Hk, Hp. split; [discriminate|]. split; [reflexivity|]. unfold mu; cbn [calls rcvs now].
@@ -811,7 +839,7 @@ Qed.
 (* ---- the resource ledger of a call: everything a call can hold, cleared whatever its outcome ---- *)
 Record ledger_clear (c : cfg) (s : state) (i : nat) : Prop := {
   lc_table : ~ In i (resp s);                                        (* no entry in the pending-reply table *)
-  lc_counts : forall k, nth_error (calls s) i = Some k -> inside k = false /\ invoked k = false;
+  lc_counts : forall k, nth_error (calls s) i = Some k -> counted k = false /\ inside k = false /\ invoked k = false;
                                                                       (* counted neither in queueLen nor in invokeNum *)
   lc_lock : lock s <> Some i;                                        (* does not hold connLock *)
   lc_queue : forall k, nth_error (calls s) i = Some k -> k_out k = Some Error -> ~ In i (sendq s) /\ ~ In i (wire s);
@@ -831,7 +859,7 @@ Proof.
   split.
   - intros Hin. apply Hr in Hin. destruct Hin as [k' [Hk' Hi]]. rewrite Hk in Hk'. inversion Hk'; subst k'.
     unfold inside in Hi. rewrite Hp in Hi. discriminate.
-  - intros k' Hk'. rewrite Hk in Hk'. inversion Hk'; subst k'. unfold inside, invoked. rewrite Hp. auto.
+  - intros k' Hk'. rewrite Hk in Hk'. inversion Hk'; subst k'. unfold counted, inside, invoked. rewrite Hp. auto.
   - intros Hl. destruct (HL1 _ Hl) as [k' [Hk' Hd]]. rewrite Hk in Hk'. inversion Hk'; subst k'. congruence.
   - intros k' Hk' Hoe. rewrite Hk in Hk'. inversion Hk'; subst k'. apply He. exact Hoe.
   - cbn [step]. rewrite Hk, Hp. auto.
@@ -846,15 +874,15 @@ Example outcome_paths_exist :
   let ret ls i := match run cfg0 init ls with
                   | Some s => match nth_error (calls s) i with Some k => match k_pc k with Returned => k_out k | _ => None end | None => None end
                   | None => None end in
-  ret [Start 20 false; LPre 0; LReg 0; LLock 0; LDialOk 0; LEnq 0; LSendTake; LPeerPkt 1 7; LLookup 0; LDeliver 0; LClean 0; LPost 0] 0%nat = Some (Reply 7) /\
-  ret ([Start 20 false; LPre 0; LReg 0; LLock 0; LDialOk 0; LEnq 0] ++ ticks 20 ++ [LCtxFire 0; LClean 0; LPost 0]) 0%nat = Some Timeout /\
-  ret [Start 20 false; LPre 0; LReg 0; LLock 0; LDialOk 0; LEnq 0; LCancel 0; LClean 0; LPost 0] 0%nat = Some Cancelled /\
-  ret [Start 20 false; LPre 0; LReg 0; LLock 0; LDialFail 0; LClean 0; LPost 0] 0%nat = Some Error /\
-  ret ([Start 20 false; LPre 0; LReg 0; LLock 0] ++ ticks 30 ++ [LDialTimeout 0; LClean 0; LPost 0]) 0%nat = Some Error /\
-  ret ([Start 20 false; Start 20 false; LPre 0; LReg 0; LLock 0; LDialOk 0; LEnq 0; LPre 1; LReg 1; LLock 1] ++ ticks 20 ++
-       [LCtxFire 0; LClean 0; LPost 0] ++ ticks 20 ++ [LEnqTimeout 1; LClean 1; LPost 1]) 1%nat = Some Error /\
+  ret [Start 20 false; LPre 0; LCount 0; LReg 0; LLock 0; LDialOk 0; LEnq 0; LSendTake; LPeerPkt 1 7; LLookup 0; LDeliver 0; LUncount 0; LClean 0; LPost 0] 0%nat = Some (Reply 7) /\
+  ret ([Start 20 false; LPre 0; LCount 0; LReg 0; LLock 0; LDialOk 0; LEnq 0] ++ ticks 20 ++ [LCtxFire 0; LUncount 0; LClean 0; LPost 0]) 0%nat = Some Timeout /\
+  ret [Start 20 false; LPre 0; LCount 0; LReg 0; LLock 0; LDialOk 0; LEnq 0; LCancel 0; LUncount 0; LClean 0; LPost 0] 0%nat = Some Cancelled /\
+  ret [Start 20 false; LPre 0; LCount 0; LReg 0; LLock 0; LDialFail 0; LUncount 0; LClean 0; LPost 0] 0%nat = Some Error /\
+  ret ([Start 20 false; LPre 0; LCount 0; LReg 0; LLock 0] ++ ticks 30 ++ [LDialTimeout 0; LUncount 0; LClean 0; LPost 0]) 0%nat = Some Error /\
+  ret ([Start 20 false; Start 20 false; LPre 0; LCount 0; LReg 0; LLock 0; LDialOk 0; LEnq 0; LPre 1; LCount 1; LReg 1; LLock 1] ++ ticks 20 ++
+       [LCtxFire 0; LUncount 0; LClean 0; LPost 0] ++ ticks 20 ++ [LEnqTimeout 1; LUncount 1; LClean 1; LPost 1]) 1%nat = Some Error /\
   ret [Start 20 false; LPre 0; LFilterErr 0; LPost 0] 0%nat = Some Error /\
-  ret [Start 20 true; LPre 0; LReg 0; LLock 0; LDialOk 0; LEnq 0; LClean 0; LPost 0] 0%nat = Some Sent.
+  ret [Start 20 true; LPre 0; LCount 0; LReg 0; LLock 0; LDialOk 0; LEnq 0; LUncount 0; LClean 0; LPost 0] 0%nat = Some Sent.
 Proof. vm_compute. repeat split; reflexivity. Qed.
 
 (* ---- the effective timeout: the caller's deadline wins, then the per-call timeout, then the proxy's; a configured
